@@ -1000,6 +1000,10 @@ func trailerBytes(seed uint64, tr []TrailerRec) []byte {
 			// a well-formed alert: level, description
 			pl = []byte{byte(1 + r.IntN(2)), []byte{0, 10, 40, 47, 50, 70, 80, 109, 112, 120}[r.IntN(10)]}
 		}
+		if t.Type == 22 && t.Len >= 1 && r.IntN(3) == 0 {
+			// handshake messages of types at the edges of the one-octet code space
+			pl[0] = []byte{0xff, 0xfe, 0x00, 0xff, 24, 0x80}[r.IntN(6)]
+		}
 		b = append(b, echbox.Record(t.Type, 0x0303, pl)...)
 	}
 	return b
